@@ -11,13 +11,13 @@ import (
 // client must see. Fields the documentation leaves open are not modelled and not compared (see the *unspecified*
 // notes). Timestamps are virtual-clock nanoseconds; 0 = not set.
 type kvRec struct {
-	kind, val                  string // kind: void,i8,i32,u64,f64,s,sl ...; val: rendered value (sl: sorted by insertion "[7 9]")
-	slice                      []uint32
-	num                        float64 // numeric value for typed counters
-	cAt, uAt, eAt              int64
-	cBy, uBy                   string
-	metaUnknown                bool // metadata not specified by the docs after the last operation (not compared)
-	persisted                  bool // hidden state: the record has been written to the file at least once (state key only)
+	kind, val     string // kind: void,i8,i32,u64,f64,s,sl ...; val: rendered value (sl: sorted by insertion "[7 9]")
+	slice         []uint32
+	num           float64 // numeric value for typed counters
+	cAt, uAt, eAt int64
+	cBy, uBy      string
+	metaUnknown   bool // metadata not specified by the docs after the last operation (not compared)
+	persisted     bool // hidden state: the record has been written to the file at least once (state key only)
 }
 
 type refkv struct {
@@ -30,6 +30,9 @@ type refkv struct {
 	ghost map[string]string
 	// reopened: hidden state - the live swamp instance was loaded from its file (state key only)
 	reopened bool
+	// removed: hidden state - keys that existed in the live swamp instance and were removed while the instance stayed
+	// alive (state key only: the instance may still hold bookkeeping for them)
+	removed map[string]bool
 }
 
 func newRefkv() *refkv { return &refkv{recs: map[string]*kvRec{}, ghost: map[string]string{}} }
